@@ -12,6 +12,7 @@ import (
 
 	"github.com/ozanh/ugo"
 	"github.com/ozanh/ugo/encoder"
+	"github.com/ozanh/ugo/parser"
 	ugostrings "github.com/ozanh/ugo/stdlib/strings"
 	ugotime "github.com/ozanh/ugo/stdlib/time"
 
@@ -35,6 +36,7 @@ const histStepLimit = 60000
 // hRun is one run of a history (JSON: carried in the request line for replays).
 type hRun struct {
 	Src     string   `json:"src"`
+	Raw     string   `json:"raw,omitempty"` // hex instructions of a hand-made Main (NumLocals 0) instead of Src
 	NoOpt   bool     `json:"noopt"`
 	Rec     bool     `json:"rec"`
 	AbortAt int      `json:"abort_at"` // the trace hook calls vm.Abort() while fetching this instruction (0 = never)
@@ -85,6 +87,16 @@ func (h *hRun) compile() error {
 		h.args = append(h.args, o)
 	}
 	if h.bc != nil {
+		return nil
+	}
+	if h.Raw != "" {
+		// bytecode the compiler never emits but the decoder accepts: it reads stack slots
+		// above its own (zero) locals
+		insts, err := hex.DecodeString(h.Raw)
+		if err != nil {
+			return err
+		}
+		h.bc = &ugo.Bytecode{FileSet: parser.NewFileSet(), Main: &ugo.CompiledFunction{Instructions: insts}}
 		return nil
 	}
 	opts := ugo.CompilerOptions{NoOptimize: h.NoOpt}
@@ -445,7 +457,7 @@ return s.Map(func(c) { if c == 'b' { ` + []string{"throw error(\"cb\")", "pan()"
 // observedRun draws the script under observation.
 func observedRun(r *gen.Rand, model bool) *hRun {
 	h := &hRun{Args: histArgs(r), Rec: r.Bool()}
-	kinds := []string{"gen", "gen", "gen", "locals", "recurse", "closures", "try"}
+	kinds := []string{"gen", "gen", "gen", "locals", "recurse", "closures", "try", "raw-getlocal"}
 	if !model {
 		kinds = []string{"gen", "locals", "mod-state", "mod-state", "builtin-mod", "builtin-mod", "container-mod", "container-mod", "callbacks", "half-import", "recurse"}
 	}
@@ -455,6 +467,11 @@ func observedRun(r *gen.Rand, model bool) *hRun {
 		o := gen.DefaultProgOpts()
 		o.Floats = false
 		h.Src = gen.Program(r, o)
+	case "raw-getlocal":
+		// GETLOCAL k; RETURN 1 in a Main without locals: reads what earlier runs left on the stack
+		// unless Clear/SetBytecode removed it
+		h.Raw = fmt.Sprintf("%02x%02x%02x01", byte(ugo.OpGetLocal), r.Intn(12), byte(ugo.OpReturn))
+		h.Src = "// hand-made: GETLOCAL k; RETURN 1"
 	case "locals":
 		// slots that are read before anything in this run wrote them
 		h.Src = hhdr + `out := []
